@@ -248,6 +248,7 @@ class Executor:
                             self._get_progress_string(),
                         )
                     )
+                handle = None
                 try:
                     slot = (
                         self._available_slots[-1]
@@ -261,6 +262,11 @@ class Executor:
                         self._available_slots.pop()
                 except ConductorAbort:
                     next_op.set_state(OperationState.ABORTED)
+                    if handle is not None:
+                        # The operation was started but might not have been
+                        # registered yet. Make sure its process is terminated
+                        # along with the other in-flight operations.
+                        self._inflight_ops.add_op(handle, next_op)
                     # N.B. A slot may be leaked here, but it does not matter
                     # because we are aborting the execution.
                     raise
